@@ -2,7 +2,11 @@ pub mod c01;
 pub mod c02;
 pub mod c03;
 pub mod c04;
+pub mod c05;
 pub mod c06;
+pub mod c07;
+pub mod c08;
+pub mod c09;
 pub mod c10;
 pub mod c11;
 pub mod c12;
@@ -11,3 +15,8 @@ pub mod c16;
 pub mod c19;
 pub mod c20;
 pub mod common;
+
+/// the C08 leaf alphabet, shared with C09's mutation corpus
+pub fn c08_leaves() -> Vec<crate::model::filter_ref::F> {
+    c08::all_leaves()
+}
